@@ -1,5 +1,202 @@
-"""Stages of a check that are not plain `pfv run` workers: sanitizer builds, Miri, valgrind, a second
-process. Each stage is a function(ctx) -> dict(report, violations, inconclusive, harness_errors, counters,
-samples, distinct)."""
+"""Stages of a check that are not plain `pfv run` workers of the verdict build: a second process, sanitizer
+builds, valgrind, Miri. Each stage is a function(ctx) -> dict(report, violations, inconclusive,
+harness_errors, counters, samples, distinct). A tool that cannot be built or run yields 'inconclusive',
+never a violation; a tool report is a violation."""
+import json, os, re, subprocess, time
 
-STAGES = {}
+HARNESS = "/verif/harness"
+
+
+def _env(extra=None):
+    e = dict(os.environ)
+    e["CARGO_NET_OFFLINE"] = "true"
+    e.setdefault("CARGO_TERM_COLOR", "never")
+    if extra:
+        e.update(extra)
+    return e
+
+
+def _journal_stats(path):
+    viol, done, counters = [], False, {}
+    if os.path.exists(path):
+        for line in open(path, errors="replace"):
+            if line.startswith("V "):
+                try:
+                    viol.append(json.loads(line[2:]))
+                except Exception:
+                    pass
+            elif line.startswith("S "):
+                try:
+                    counters = json.loads(line[2:]).get("counters", {})
+                except Exception:
+                    pass
+            elif line.startswith("D"):
+                done = True
+    return viol, done, counters
+
+
+def second_process(ctx):
+    """C14 (c): freshly spawned processes (new ASLR layout, different environment variables, working
+    directory and thread count) must produce the same digest over the same seeded input set."""
+    runs = [
+        dict(cwd="/verif", env={}, threads=1),
+        dict(cwd="/", env={"LANG": "tr_TR.UTF-8", "TZ": "Pacific/Chatham", "RUST_BACKTRACE": "1", "HOME": "/nonexistent",
+                           "MALLOC_PERTURB_": "165", "PREFLATE_X": "y" * 3000}, threads=4),
+        dict(cwd="/tmp", env={"RUST_MIN_STACK": "8388608", "MALLOC_ARENA_MAX": "1", "LC_ALL": "C"}, threads=16),
+    ]
+    digests, errs = [], []
+    for r in runs:
+        e = _env(r["env"])
+        p = subprocess.run([ctx["pfv"], "digest", "--seed", str(ctx["seed"]), "--nshards", str(r["threads"])],
+                           cwd=r["cwd"], env=e, stdout=subprocess.DEVNULL, stderr=subprocess.PIPE, text=True, timeout=1800)
+        m = re.search(r"DIGEST ([0-9a-f]+)", p.stderr)
+        if "DIGEST-THREADS-DISAGREE" in p.stderr:
+            errs.append("threads of one process disagree: " + p.stderr.strip()[-300:])
+            digests.append("disagree")
+        elif m:
+            digests.append(m.group(1))
+        else:
+            errs.append("digest process failed rc=%s: %s" % (p.returncode, p.stderr.strip()[-300:]))
+            digests.append(None)
+    res = dict(report={"digests": digests, "processes": len(runs)}, counters={"evaluations": 3 * 3 * 8 * 8,
+                                                                             "second_process_runs": len(runs)})
+    ok = [d for d in digests if d and d != "disagree"]
+    if "disagree" in digests or (len(ok) >= 2 and len(set(ok)) > 1):
+        rp = os.path.join(ctx["replays"], ctx["pid"], "process_digest_differs.json")
+        os.makedirs(os.path.dirname(rp), exist_ok=True)
+        json.dump({"property": ctx["pid"], "sub": "process_digest_differs", "digests": digests, "seed": ctx["seed"],
+                   "runs": runs, "note": "pfv digest --seed S --nshards T in different environments"}, open(rp, "w"), indent=1)
+        res["violations"] = [{"sub": "process_digest_differs", "signature": "process_digest_differs",
+                              "what": "the digest of all public functions' results over the same seeded input set differs "
+                                      "between processes/thread counts: %s %s" % (digests, errs), "replay": rp}]
+    elif len(ok) < 2:
+        res["inconclusive"] = ["second-process comparison could not be made: %s" % errs]
+    return res
+
+
+def _run_tool(ctx, name, cmd, env, journal, timeout, report_re, ok_rc=(0,)):
+    t = time.time()
+    try:
+        p = subprocess.run(cmd, env=env, stdout=subprocess.DEVNULL, stderr=subprocess.PIPE, text=True, timeout=timeout)
+    except subprocess.TimeoutExpired:
+        return dict(report={"status": "timeout"}, inconclusive=["%s: run exceeded %ds" % (name, timeout)])
+    viol, done, counters = _journal_stats(journal)
+    reports = re.findall(report_re, p.stderr) if report_re else []
+    rep = {"status": "ran", "rc": p.returncode, "tool_reports": len(reports), "wall_s": round(time.time() - t, 1),
+           "cases_counters": {k: v for k, v in counters.items() if k in ("evaluations", "compress_calls", "decompress_calls")}}
+    res = dict(report=rep, violations=list(viol), counters={"evaluations": counters.get("evaluations", 0),
+                                                          "%s_evaluations" % name: counters.get("evaluations", 0)})
+    if reports:
+        rp = os.path.join(ctx["replays"], ctx["pid"], "%s_report.txt" % name)
+        os.makedirs(os.path.dirname(rp), exist_ok=True)
+        open(rp, "w").write(p.stderr[-20000:])
+        first = reports[0] if isinstance(reports[0], str) else " ".join(reports[0])
+        res["violations"].append({"sub": "%s_report" % name, "signature": "%s_report|%s" % (name, first[:80]),
+                                  "what": "%s reported %d problem(s); first: %s" % (name, len(reports), first[:200]),
+                                  "replay": rp})
+    elif p.returncode not in ok_rc or not done:
+        res["inconclusive"] = ["%s: worker ended with rc=%s without a tool report (stderr tail: %s)"
+                               % (name, p.returncode, p.stderr.strip()[-300:])]
+    return res
+
+
+def _build(ctx, name, args, env, target_dir):
+    t = time.time()
+    p = subprocess.run(["cargo", "+nightly", "build", "--release", "--offline", "--target", "x86_64-unknown-linux-gnu",
+                        "--target-dir", target_dir] + args, cwd=HARNESS, env=env, stdout=subprocess.PIPE,
+                       stderr=subprocess.STDOUT, text=True)
+    if p.returncode != 0:
+        return None, "%s build failed: %s" % (name, p.stdout[-600:]), time.time() - t
+    return os.path.join(target_dir, "x86_64-unknown-linux-gnu", "release", "pfv"), None, time.time() - t
+
+
+def asan(ctx):
+    """reduced workload of the same monitor under AddressSanitizer (Rust allocations; zstd's C objects are
+    not instrumented)"""
+    env = _env({"RUSTFLAGS": "-Zsanitizer=address -Cforce-frame-pointers=yes -Cdebug-assertions=on -Coverflow-checks=on"})
+    binp, err, bs = _build(ctx, "asan", [], env, os.path.join(HARNESS, "target", "asan"))
+    if not binp:
+        return dict(report={"status": "build failed"}, inconclusive=[err])
+    j = os.path.join(ctx["work"], "asan.journal")
+    scale = {"C12": 12, "C14": 20}.get(ctx["pid"], 10)
+    env2 = _env({"ASAN_OPTIONS": "halt_on_error=1:abort_on_error=0:detect_leaks=0:allocator_may_return_null=1"})
+    res = _run_tool(ctx, "asan", [binp, "run", ctx["pid"], "--tier", "quick", "--seed", str(ctx["seed"]), "--journal", j,
+                                  "--scale", str(scale), "--as-gib", "0", "--replay-dir", ctx["replays"]],
+                    env2, j, 3000, r"ERROR: AddressSanitizer: ([^\n]+)", ok_rc=(0,))
+    res["report"]["build_s"] = round(bs, 1)
+    return res
+
+
+def tsan(ctx):
+    """C14 under ThreadSanitizer (std rebuilt with -Zbuild-std so that it is instrumented too)"""
+    env = _env({"RUSTFLAGS": "-Zsanitizer=thread -Cdebug-assertions=on -Coverflow-checks=on"})
+    binp, err, bs = _build(ctx, "tsan", ["-Zbuild-std"], env, os.path.join(HARNESS, "target", "tsan"))
+    if not binp:
+        return dict(report={"status": "build failed"}, inconclusive=[err])
+    j = os.path.join(ctx["work"], "tsan.journal")
+    env2 = _env({"TSAN_OPTIONS": "halt_on_error=0:report_signal_unsafe=0:second_deadlock_stack=1"})
+    res = _run_tool(ctx, "tsan", [binp, "run", ctx["pid"], "--tier", "quick", "--seed", str(ctx["seed"]), "--journal", j,
+                                  "--scale", "35", "--as-gib", "0", "--replay-dir", ctx["replays"]],
+                    env2, j, 3000, r"WARNING: ThreadSanitizer: ([^\n]+)", ok_rc=(0,))
+    res["report"]["build_s"] = round(bs, 1)
+    return res
+
+
+def valgrind(ctx):
+    """reduced workload under valgrind memcheck (sees zstd's C code too; uninitialised values, invalid
+    accesses)"""
+    j = os.path.join(ctx["work"], "valgrind.journal")
+    scale = {"C12": 2, "C14": 17}.get(ctx["pid"], 2)
+    cmd = ["valgrind", "-q", "--error-exitcode=99", "--leak-check=no", "--undef-value-errors=yes", "--num-callers=12",
+           ctx["pfv"], "run", ctx["pid"], "--tier", "quick", "--seed", str(ctx["seed"]), "--journal", j,
+           "--scale", str(scale), "--as-gib", "0", "--replay-dir", ctx["replays"]]
+    return _run_tool(ctx, "valgrind", cmd, _env(), j, 5000,
+                     r"==\d+== (Invalid (?:read|write)[^\n]*|Conditional jump or move depends on uninitialised[^\n]*|"
+                     r"Use of uninitialised[^\n]*|Syscall param [^\n]*uninitialised[^\n]*|Invalid free[^\n]*|"
+                     r"Mismatched free[^\n]*|Source and destination overlap[^\n]*)", ok_rc=(0,))
+
+
+def miri(ctx):
+    """C14 under Miri with many seeds (distinct schedules): data races, UB, uninitialised reads in the pure
+    Rust part of the library (Miri cannot cross the C FFI of zstd or of the compressor crates)"""
+    mdir = "/verif/miri"
+    seeds = 16
+    t = time.time()
+    env = _env({"MIRIFLAGS": "-Zmiri-many-seeds=0..%d -Zmiri-disable-isolation" % seeds})
+    try:
+        p = subprocess.run(["cargo", "+nightly", "miri", "run", "--offline"], cwd=mdir, env=env, stdout=subprocess.PIPE,
+                           stderr=subprocess.PIPE, text=True, timeout=5400)
+    except subprocess.TimeoutExpired:
+        return dict(report={"status": "timeout"}, inconclusive=["miri: exceeded 5400 s"])
+    out = p.stdout + p.stderr
+    ok_seeds = len(re.findall(r"MIRI-OK", out))
+    errs = re.findall(r"error: (Undefined Behavior[^\n]*|[^\n]*[Dd]ata race[^\n]*|[^\n]*uninitialized[^\n]*|unsupported operation[^\n]*)", out)
+    rep = {"status": "ran", "rc": p.returncode, "seeds_requested": seeds, "seed_runs_completed": ok_seeds,
+           "wall_s": round(time.time() - t, 1)}
+    res = dict(report=rep, counters={"evaluations": ok_seeds, "miri_seed_runs": ok_seeds})
+    real = [e for e in errs if not e.startswith("unsupported operation")]
+    if "MIRI-MISMATCH" in out or real:
+        rp = os.path.join(ctx["replays"], ctx["pid"], "miri_report.txt")
+        os.makedirs(os.path.dirname(rp), exist_ok=True)
+        open(rp, "w").write(out[-30000:])
+        first = real[0] if real else "a concurrent result differed from the sequential one under Miri"
+        res["violations"] = [{"sub": "miri_report", "signature": "miri_report|%s" % first[:80],
+                              "what": "Miri: %s" % first[:300], "replay": rp}]
+    elif p.returncode != 0 or ok_seeds == 0:
+        res["inconclusive"] = ["miri: rc=%s, %d seed runs completed; tail: %s" % (p.returncode, ok_seeds, out.strip()[-400:])]
+    return res
+
+
+STAGES = {
+    "C12": [
+        dict(name="asan", tiers=("thorough",), fn=asan),
+        dict(name="valgrind", tiers=("thorough",), fn=valgrind),
+    ],
+    "C14": [
+        dict(name="second_process", tiers=("quick", "thorough"), fn=second_process),
+        dict(name="tsan", tiers=("thorough",), fn=tsan),
+        dict(name="asan", tiers=("thorough",), fn=asan),
+        dict(name="valgrind", tiers=("thorough",), fn=valgrind),
+        dict(name="miri", tiers=("thorough",), fn=miri),
+    ],
+}
